@@ -27,7 +27,7 @@ from common import REPO, VERIF, Check, use_repo
 
 import c19_space as S  # noqa: E402
 
-LEVEL = "proof+exploration"
+LEVEL = "exploration"
 EXTRA_NOTES = set()
 
 
